@@ -55,7 +55,7 @@ def validate(cases, report, name):
 def case(mode, lines, listing, o, lines2=(), o2=None, rng=()):
     c = {"mode": mode, "lines": lines, "listing": listing, "outcome": o["outcome"],
          "stream": o.get("stream", "") if o["outcome"] == "ok" else "",
-         "lines2": list(lines2), "outcome2": "", "stream2": "", "range": list(rng)}
+         "lines2": list(lines2), "outcome2": "", "stream2": "", "range": list(rng), "reps": 0}
     if o2 is not None:
         c["outcome2"] = o2["outcome"]
         c["stream2"] = o2.get("stream", "") if o2["outcome"] == "ok" else ""
